@@ -21,6 +21,7 @@ def h(t, part):
                 continue
             member[(c, r)] = t.bool()
     on_a = t.bool() if part.get('wide') else True     # client 1 is also connected to /a (and in room r1 there)
+    own_room = t.bool()             # client 0 is still in its personal room (False: it left it earlier)
     with notrace():
         w = worlds.SWorld(asyncio_, async_handlers=False, namespaces=['/', '/a'])
         for ns in ('/', '/a'):
@@ -42,6 +43,9 @@ def h(t, part):
             if m:
                 w.call(w.s.enter_room(sids[c], rooms[r]))
                 model.setdefault(rooms[r], set()).add(c)
+        if not own_room:
+            w.call(w.s.leave_room(sids[0], sids[0]))
+            model[sids[0]].discard(0)
         sid_a = None
         if on_a:
             sid_a = w.connect('e1', '/a')
@@ -177,7 +181,7 @@ def parts(tier):
     return out
 
 
-CHECKS = [dict(name='rooms-step', fn=h, parts=parts, budget={'quick': 80, 'thorough': 1500}, per_path_s=20)]
+CHECKS = [dict(name='rooms-step', fn=h, parts=parts, budget={'quick': 180, 'thorough': 1500}, per_path_s=20)]
 
 META = dict(
     explanation='Inductive step over room state: an arbitrary membership matrix (which of 3 clients is in which of the '
@@ -187,10 +191,10 @@ META = dict(
                 'rooms(sid) for every client, no empty room containers - is compared with a set-based reference model. '
                 'Every reachable membership state over this universe is a pre-state, so histories of any length over it '
                 'are covered as far as the observations are functions of the state.',
-    bounds={'quick': '3 clients x 3 rooms (string, integer, session-id-named) on / (+ client 1 on /a): 2^6 pre-states x '
+    bounds={'quick': '3 clients x 3 rooms (string, integer, session-id-named) on / (+ client 1 on /a): 2^7 pre-states (incl. client 0 having left its personal room) x '
                      '2 x %d operations (enter, leave, close incl. unknown room, disconnect by 3 causes, emit with 7 '
                      'targets x 3 skip_sid forms, operations on an unknown namespace and on /a) x 8 probe emits' % NOPS,
-            'thorough': '2^9 pre-states, two consecutive operations'},
+            'thorough': '2^10 pre-states, two consecutive operations'},
     outside=['empty-list and falsy targets (broadcast by definition)', 'tuple room names', 'more than 3 clients / 3 rooms',
              'pub/sub managers (C07)'],
     stubs=['engine.io server -> FakeEio/FakeAEio (per-transport outboxes)', 'JSON text -> TokJson',
